@@ -19,11 +19,11 @@ package keeper
 import (
 	"bytes"
 	"crypto/ecdsa"
+	"encoding/hex"
 	"math/big"
 
 	sdkerrors "cosmossdk.io/errors"
 	"github.com/circlefin/noble-cctp/x/cctp/types"
-	"github.com/ethereum/go-ethereum/common"
 	"github.com/ethereum/go-ethereum/crypto"
 )
 
@@ -90,8 +90,8 @@ func VerifyAttestationSignatures(
 		// check that recovered key is a valid attester
 		contains := false
 		for _, key := range publicKeys {
-			hexBz := common.FromHex(key.Attester)
-			if bytes.Equal(hexBz, recoveredKey) {
+			hexBz, err := attesterKeyBytes(key.Attester)
+			if err == nil && bytes.Equal(hexBz, recoveredKey) {
 				contains = true
 				break
 			}
@@ -104,4 +104,19 @@ func VerifyAttestationSignatures(
 		latestECDSA.X, latestECDSA.Y = recoveredECSDA.X, recoveredECSDA.Y
 	}
 	return nil
+}
+
+// attesterKeyBytes decodes a stored attester entry (hex, optional 0x prefix, a
+// missing leading zero nibble tolerated as common.FromHex does). Unlike
+// common.FromHex it reports entries that contain anything but hex digits
+// instead of returning the bytes in front of the first bad character: such an
+// entry is not the public key it happens to begin with.
+func attesterKeyBytes(attester string) ([]byte, error) {
+	if len(attester) >= 2 && attester[0] == '0' && (attester[1] == 'x' || attester[1] == 'X') {
+		attester = attester[2:]
+	}
+	if len(attester)%2 == 1 {
+		attester = "0" + attester
+	}
+	return hex.DecodeString(attester)
 }
